@@ -7812,7 +7812,30 @@ eval_name_test_try_compile_predicate_append(const struct lyxp_expr *exp, uint32_
     const struct lysc_node *sparent, *cur_scnode;
     struct lyxp_expr *val_exp = NULL;
     struct lyxp_set set2 = {0};
+    const char *ptr;
     char quot;
+
+    /* the value must not depend on the context position or on the sibling instances of the context node */
+    for (i = tok_idx; i <= end_tok_idx; ++i) {
+        ptr = exp->expr + exp->tok_pos[i];
+        if (exp->tokens[i] == LYXP_TOKEN_FUNCNAME) {
+            if (!ly_strncmp("position", ptr, exp->tok_len[i]) || !ly_strncmp("last", ptr, exp->tok_len[i])) {
+                rc = LY_ENOT;
+                goto cleanup;
+            }
+        } else if (exp->tokens[i] == LYXP_TOKEN_AXISNAME) {
+            switch (str2axis(ptr, exp->tok_len[i])) {
+            case LYXP_AXIS_FOLLOWING:
+            case LYXP_AXIS_FOLLOWING_SIBLING:
+            case LYXP_AXIS_PRECEDING:
+            case LYXP_AXIS_PRECEDING_SIBLING:
+                rc = LY_ENOT;
+                goto cleanup;
+            default:
+                break;
+            }
+        }
+    }
 
     /* duplicate the value expression */
     LY_CHECK_GOTO(rc = lyxp_expr_dup(set->ctx, exp, tok_idx, end_tok_idx, &val_exp), cleanup);
